@@ -259,4 +259,4 @@ def _obligations():
 
 
 def obligations():
-    return _obligations() + [labels_obligation("C05"), selectors_obligation("C05"), effects_obligation("C05")]
+    return _obligations() + [labels_obligation("C05"), selectors_obligation("C05"), effects_obligation("C05"), plumbing_obligation("C05")]
